@@ -56,6 +56,8 @@ class Profile:
         self.text = False
         self.edge_weight = 0.45
         self.call_weight = 3
+        self.scope_weight = 1
+        self.block_weight = 2
         self.min_calls = 0
         self.loop_weight = 1
         self.if_weight = 2
@@ -75,6 +77,8 @@ class GS:
         self.exports: list[str] = []      # sc.name visible in this scope
         self.eq: list[str] = []           # `=` constants defined so far (fill pass)
         self.xc: dict[str, int] = {}      # `:=` constants defined so far -> value
+        self.consts: list[str] = []       # every constant name defined in this scope (duplicate avoidance)
+        self.inline_names: set[str] = set()  # names defined in .if branches written in this scope (same assembler scope)
         self.params: list[str] = []
         self.loopvar: tuple | None = None
 
@@ -96,21 +100,36 @@ class ProgGen:
 
     # ---- names -------------------------------------------------------------------------------------
     def fresh_label(self, gs: GS) -> str:
-        if self.p.shadowing and self.rng.random() < 0.6:
+        if self.p.shadowing and self.rng.random() < 0.8:
             pool = [f"lb_{c}" for c in "abcd"]
-            taken, s_ = set(gs.labels), gs
-            while s_.kind == "ifbranch" and s_.parent is not None:
-                s_ = s_.parent
-                taken |= set(s_.labels)
+            real = gs
+            while real.kind == "ifbranch" and real.parent is not None:
+                real = real.parent
+            taken = set(gs.labels) | set(real.labels) | real.inline_names
             cand = [n for n in pool if n not in taken]
             if cand:
                 return self.rng.choice(cand)
         self.n_label += 1
         return f"lb_{self.n_label}"
 
-    def fresh_const(self) -> str:
+    def fresh_const(self, gs: GS | None = None, eager: bool = True) -> str:
+        if self.p.shadowing and gs is not None and self.rng.random() < 0.8:
+            pool = [("kx_" if eager else "ke_") + c for c in "abc"]
+            real = gs
+            while real.kind == "ifbranch" and real.parent is not None:
+                real = real.parent
+            taken = set(gs.consts) | set(real.consts) | real.inline_names
+            cand = [n for n in pool if n not in taken]
+            if cand:
+                return self.rng.choice(cand)
         self.n_const += 1
         return f"k_{self.n_const}"
+
+    def _note_inline(self, gs: GS, name: str) -> None:
+        s_ = gs
+        while s_.kind == "ifbranch" and s_.parent is not None:
+            s_ = s_.parent
+            s_.inline_names.add(name)
 
     # ---- addresses ---------------------------------------------------------------------------------
     def rom_address(self) -> int:
@@ -157,9 +176,9 @@ class ProgGen:
             ks += ["reloc"]
         if depth < p.max_depth:
             if p.blocks:
-                ks += ["block"] * 2
+                ks += ["block"] * p.block_weight
             if p.scopes and not in_macro and not in_loop:
-                ks += ["scope"]
+                ks += ["scope"] * p.scope_weight
             if p.loops:
                 ks += ["for"] * p.loop_weight
             if p.ifs:
@@ -183,6 +202,7 @@ class ProgGen:
             if k in ("label", "selfptr"):
                 node["n"] = self.fresh_label(gs)
                 gs.labels.append(node["n"])
+                self._note_inline(gs, node["n"])
             elif k in ("block", "for"):
                 child = GS(gs, "block" if k == "block" else "loop")
                 node["gs"] = child
@@ -390,8 +410,11 @@ class ProgGen:
                 out.append({"k": "incbin", "f": f})
                 gs.labels.append(f.replace(".", "_"))
             elif k == "const":
-                name = self.fresh_const()
-                if rng.random() < 0.5:
+                eager = rng.random() < 0.5
+                name = self.fresh_const(gs, eager)
+                gs.consts.append(name)
+                self._note_inline(gs, name)
+                if eager:
                     t, v = self.x_expr(gs)
                     out.append({"k": "const", "n": name, "e": t, "eager": True})
                     gs.xc[name] = v
